@@ -152,9 +152,9 @@ class SysInterp(Interp):
             raise AnalysisAbort(f"branch on data that the magnitude-class domain cannot decide: {NP.show(t)[:200]} in {self.stack[-1] if self.stack else '?'}")
         return r
 
-    def builtin(self, name):
+    def _builtin(self, name):
         if name in ("max", "min"):
-            base = super().builtin(name)
+            base = super()._builtin(name)
 
             def mm(*args, default=Ellipsis, key=None):
                 vals = self.iterate(args[0]) if len(args) == 1 else list(args)
@@ -164,7 +164,7 @@ class SysInterp(Interp):
                     return default
                 return SymScalar(NP.t_fn("py" + name, *[NP.as_term(x) for x in vals])) if any(isinstance(x, SymScalar) for x in vals) else base(*args)
             return mm
-        return super().builtin(name)
+        return super()._builtin(name)
 
 
 class FInfo:
